@@ -11,6 +11,7 @@ import Blue.Proofs.ScanCongr
 import Blue.Proofs.Stack
 import Blue.Driver.C08
 import Blue.Proofs.CursorWorld
+import Blue.Proofs.CursorWorldW
 /-! # Property C07 — a scan cursor is a stable, memory-safe snapshot while the store moves under it
 
 Property theorems only.  A cursor returned by `KeyValueStore::range_scan` captures, under the state
@@ -63,9 +64,27 @@ timestamp.  Three things keep it a snapshot:
   atomic event), `drop_releases` (a non-current version without live cursor is un-held and
   un-counted; a memtable without store handle and without live cursor handle has released every
   node).  Simplifications of that machine: writes are atomic (writers in flight are C06), `flush`
-  = install + `imm := None` in one event (the window between them is not an event), the store's
+  = install + `imm := None` in one event (the window between them is an event of the next item), the store's
   handle stands for every `Arc<MemTable>` that is not a cursor's, compaction outputs are arbitrary
   file lists (their correctness is C01/C05).
+* **the flush window** (`Blue.CursorWorldW`, block `CursorWorldW`): the same machine with `flush` split
+  into `flushInstall f` (`_ingest`, kvs/mod.rs:310: `FileRefs` install of `cur ++ [f]`, `imm` still held)
+  and `flushClear` (`state.imm = None`, mod.rs:321-322: `SkipOwn` `dropList`); every other event is
+  `Blue.CursorWorld.step` on the base state.  `world_inv_w` (the invariants + coupling of `world_inv`
+  + the window clause: in a window the immutable memtable's entries are exactly file `f`'s),
+  `cursor_step_safe_w` / `cursor_step_enabled_w`, `drop_releases_w` over every event list;
+  `window_collapses_to_flush` (the halves back to back are `flush`), `flushInstall_opens_window`;
+  `cursor_opened_in_window_shows_each_entry_once` (a cursor opened inside the window captured the
+  flushed entries in two children and returns, under every program and interleaving, the reference
+  cursor over the open-time contents with each entry once) + `cursor_shows_open_time_contents_w` / `cursor_unmoved_by_store_w` (every cursor);
+  `window_cursor_memory` / `flushClear_drops_handle` (the cursor's iterator keeps the immutable
+  memtable's nodes alive after the store dropped its handle; released when no holder is left).
+  Restrictions: `flushInstall f` asks for a name `f` not yet in the ghost `fileData`; (3) in the
+  window asks that `f` is still in the current version at open time (true right after
+  `flushInstall`; a compaction that replaced `f` INSIDE the window before the open is not covered
+  by that theorem — `cursor_shows_open_time_contents_w`, the equality with the reference cursor over
+  `capture`, holds for every cursor; the reading "= the store's contents, each once" then does not
+  apply); one flush at a time.
 
 **Partial**, and why: (1) hypothesis (i) — no entry with sequence number ≤ the read timestamp is
 added to a captured memtable (mutable or immutable) after the open — is a hypothesis here.  It was
@@ -573,6 +592,261 @@ example :
 end CursorWorld
 -- END CursorWorld
 
+-- BEGIN CursorWorldW
+/-! ## the same machine with the flush SPLIT in its two critical sections (`Blue.CursorWorldW`)
+
+`flushInstall f` = `_ingest` (lsmtk/src/kvs/mod.rs:310: the `FileRefs` install of `cur ++ [f]`, the store
+still holds `imm`), `flushClear` = `state.imm = None` (mod.rs:321-322: `SkipOwn` `dropList` on the
+immutable memtable).  Every other event is `Blue.CursorWorld.step` on the base state.  A cursor opened
+between the two (`range_scan`, mod.rs:589-600, clones `state.mem`, `state.imm` and takes the tree
+snapshot under the state lock) has the flushed entries in TWO children. -/
+section CursorWorldW
+open Blue.Spec Blue.Cursor
+variable {F K : Type} [DecidableEq F] [DecidableEq K]
+
+/-- **(1) with the window clause**: in every state reached by ANY list of events of the split machine:
+    the three component invariants, the exact `Arc` counts, the coupling of every live cursor; and IN
+    A WINDOW (`win = some f`) the store still holds the immutable memtable `t`, which is not the
+    mutable one, and the entries of `t` are exactly the entries of file `f` -/
+theorem world_inv_w {klt : K → K → Bool} {tomb : Ver K → Bool} (files : List F) (data : List (F × List (Ver K)))
+    (evs : List (Blue.CursorWorldW.Ev F K)) {s : Blue.CursorWorldW.St F K}
+    (hr : Blue.CursorWorldW.run klt tomb (Blue.CursorWorldW.init files data) evs = some s) :
+    (Blue.FileRefs.Inv s.base.files ∧ (∀ tb ∈ s.base.tables, Blue.SkipOwn.Inv tb) ∧
+      Blue.CursorWorld.SnapInv klt tomb s.base) ∧
+    (∀ i, i < s.base.files.versions.length →
+      Blue.FileRefs.holdersAt s.base.files i
+        = Blue.CursorWorld.outOf s.base i + (if i + 1 = s.base.files.versions.length then 1 else 0)) ∧
+    (∀ (i : Nat) (c : Blue.CursorWorld.Cur K), s.base.cursors[i]? = some c → c.live = true →
+      Blue.FileRefs.holdersAt s.base.files c.ver ≥ 1 ∧
+      (∀ f ∈ Blue.CursorWorld.filesOf s.base.files c.ver, f ∈ s.base.files.sst) ∧
+      ∀ x ∈ c.hs, ∃ tb, s.base.tables[x.1]? = some tb ∧ Blue.SkipOwn.held tb x.2 = true ∧ tb.freed = []) ∧
+    (∀ f, s.win = some f → ∃ t, s.base.imm = some t ∧ t + 1 < s.base.tables.length ∧
+      Blue.CursorWorld.dataOf s.base.fileData f = s.base.tabData.getD t []) :=
+  Blue.CursorWorldW.world_inv_w files data evs hr
+
+/-- **(2)** a `stepCursor` in any reached state of the split machine (inside a window, right after
+    `flushClear`, …) goes through a live cursor, dereferences only memtables that have released
+    nothing, finds every file of its version in `sst/`; no use after free before or by it -/
+theorem cursor_step_safe_w {klt : K → K → Bool} {tomb : Ver K → Bool} (files : List F) (data : List (F × List (Ver K)))
+    (evs : List (Blue.CursorWorldW.Ev F K)) {s s' : Blue.CursorWorldW.St F K}
+    (hr : Blue.CursorWorldW.run klt tomb (Blue.CursorWorldW.init files data) evs = some s) (i : Nat) (o : Op (Ver K))
+    (hs : Blue.CursorWorldW.step klt tomb s (.stepCursor i o) = some s') :
+    ∃ c, s.base.cursors[i]? = some c ∧ c.live = true ∧
+      (∀ x ∈ c.hs, ∃ tb, s.base.tables[x.1]? = some tb ∧ Blue.SkipOwn.held tb x.2 = true ∧ tb.freed = [] ∧ tb.uaf = false) ∧
+      (∀ f ∈ Blue.CursorWorld.filesOf s.base.files c.ver, f ∈ s.base.files.sst) ∧
+      (∀ tb ∈ s'.base.tables, tb.uaf = false) :=
+  Blue.CursorWorldW.cursor_step_safe_w files data evs hr i o hs
+
+/-- … and the step is enabled for every live cursor of every reached state -/
+theorem cursor_step_enabled_w {klt : K → K → Bool} {tomb : Ver K → Bool} (files : List F) (data : List (F × List (Ver K)))
+    (evs : List (Blue.CursorWorldW.Ev F K)) {s : Blue.CursorWorldW.St F K}
+    (hr : Blue.CursorWorldW.run klt tomb (Blue.CursorWorldW.init files data) evs = some s) (i : Nat)
+    (c : Blue.CursorWorld.Cur K) (hc : s.base.cursors[i]? = some c) (hl : c.live = true) (o : Op (Ver K)) :
+    ∃ s', Blue.CursorWorldW.step klt tomb s (.stepCursor i o) = some s' :=
+  Blue.CursorWorldW.cursor_step_enabled_w files data evs hr i c hc hl o
+
+/-- **(4)** nothing leaks, in every reached state of the split machine -/
+theorem drop_releases_w {klt : K → K → Bool} {tomb : Ver K → Bool} (files : List F) (data : List (F × List (Ver K)))
+    (evs : List (Blue.CursorWorldW.Ev F K)) {s : Blue.CursorWorldW.St F K}
+    (hr : Blue.CursorWorldW.run klt tomb (Blue.CursorWorldW.init files data) evs = some s) :
+    (∀ (i : Nat) (v : Blue.FileRefs.Ver F), s.base.files.versions[i]? = some v → i + 1 < s.base.files.versions.length →
+      Blue.CursorWorld.outOf s.base i = 0 → v.holders = 0 ∧ v.counted = false) ∧
+    (∀ (t : Nat) (tb : Blue.SkipOwn.St), s.base.tables[t]? = some tb →
+      ((tb.listHeld = true ∨ ∃ (i : Nat) (c : Blue.CursorWorld.Cur K) (j : Nat),
+          s.base.cursors[i]? = some c ∧ c.live = true ∧ (t, j) ∈ c.hs) → tb.freed = []) ∧
+      (tb.listHeld = false →
+        (∀ (i : Nat) (c : Blue.CursorWorld.Cur K) (j : Nat), s.base.cursors[i]? = some c → c.live = true → (t, j) ∉ c.hs) →
+        tb.freed = List.range tb.nodes)) :=
+  Blue.CursorWorldW.drop_releases_w files data evs hr
+
+/-- the two halves taken back to back ARE the `flush` event of `Blue.CursorWorld` (for a file name
+    not yet used in the ghost `fileData`) -/
+theorem window_collapses_to_flush {klt : K → K → Bool} {tomb : Ver K → Bool} {s s1 s2 : Blue.CursorWorldW.St F K} {f : F}
+    (ha : Blue.CursorWorldW.step klt tomb s (.flushInstall f) = some s1)
+    (hb : Blue.CursorWorldW.step klt tomb s1 .flushClear = some s2) :
+    Blue.CursorWorld.step klt tomb s.base (.flush f) = some s2.base ∧ s.win = none ∧ s2.win = none :=
+  Blue.CursorWorldW.window_collapses_to_flush ha hb
+
+/-- `flushInstall f` in any reached state opens the window: the current version becomes `cur ++ [f]`,
+    `imm` and the memtables are untouched — the hypotheses `win = some f`, `f ∈ curFiles` of the next
+    theorems hold right after it -/
+theorem flushInstall_opens_window {klt : K → K → Bool} {tomb : Ver K → Bool} (files : List F) (data : List (F × List (Ver K)))
+    (evs : List (Blue.CursorWorldW.Ev F K)) {s s' : Blue.CursorWorldW.St F K}
+    (hr : Blue.CursorWorldW.run klt tomb (Blue.CursorWorldW.init files data) evs = some s) (f : F)
+    (hs : Blue.CursorWorldW.step klt tomb s (.flushInstall f) = some s') :
+    s'.win = some f ∧ Blue.CursorWorld.curFiles s'.base.files = Blue.CursorWorld.curFiles s.base.files ++ [f] ∧
+      f ∈ Blue.CursorWorld.curFiles s'.base.files ∧ s'.base.imm = s.base.imm ∧ s'.base.tables = s.base.tables :=
+  Blue.CursorWorldW.flushInstall_opens_window files data evs hr f hs
+
+/-- **(3) for every cursor of the split machine** (opened inside a window or not): under any
+    interleaving `evs2` it returns, call by call, what the reference cursor over the list captured at
+    open time returns -/
+theorem cursor_shows_open_time_contents_w {klt : K → K → Bool} (st : StrictTotal klt) (tomb : Ver K → Bool)
+    (files : List F) (data : List (F × List (Ver K))) (evs1 evs2 : List (Blue.CursorWorldW.Ev F K)) (sb eb : Bound K)
+    {s1 s2 s3 : Blue.CursorWorldW.St F K}
+    (h1 : Blue.CursorWorldW.run klt tomb (Blue.CursorWorldW.init files data) evs1 = some s1)
+    (h2 : Blue.CursorWorldW.step klt tomb s1 (.openCursor sb eb) = some s2)
+    (h3 : Blue.CursorWorldW.run klt tomb s2 evs2 = some s3) :
+    ∃ c, s3.base.cursors[s1.base.cursors.length]? = some c ∧ c.snap0 = Blue.CursorWorld.capture s1.base ∧
+      c.outs = Ref.run ⟨Blue.Snap.view klt tomb sb eb (Blue.CursorWorld.capture s1.base), 0⟩
+        (Blue.CursorWorldW.callsOf s1.base.cursors.length evs2) :=
+  Blue.CursorWorldW.cursor_shows_open_time_contents_w st tomb files data evs1 evs2 sb eb h1 h2 h3
+
+/-- **(3) in the window**: a cursor opened INSIDE the flush window (file `f` installed and in the
+    current version, `state.imm` not yet cleared) captured the flushed entries TWICE — the list of
+    its children `rest` is `imm's entries ++ (… ++ imm's entries ++ …)`: immutable-memtable child and
+    version child — and, under EVERY program and EVERY interleaving `evs2` of store events
+    (`flushClear`, later rollovers / flushes, compactions, verifier passes, writes, other cursors), it
+    returns call by call what the reference cursor over the open-time contents with each entry ONCE
+    (`captureOnce`: memtable + files of the current version) returns; that list has no (key,
+    timestamp) twice.  `Blue.Snap.view` already drops identical copies (`sortV` inserts with `insertV`
+    — the `scan_spec_dups` shape, `held_view_is_scan_spec_dups_list`); the duplicate is in what is
+    captured (`c.snap0 = capture s1`), not in what is shown. -/
+theorem cursor_opened_in_window_shows_each_entry_once {klt : K → K → Bool} (st : StrictTotal klt) (tomb : Ver K → Bool)
+    (files : List F) (data : List (F × List (Ver K))) (evs1 evs2 : List (Blue.CursorWorldW.Ev F K)) (sb eb : Bound K) (f : F)
+    {s1 s2 s3 : Blue.CursorWorldW.St F K}
+    (h1 : Blue.CursorWorldW.run klt tomb (Blue.CursorWorldW.init files data) evs1 = some s1)
+    (hw : s1.win = some f) (hf : f ∈ Blue.CursorWorld.curFiles s1.base.files)
+    (h2 : Blue.CursorWorldW.step klt tomb s1 (.openCursor sb eb) = some s2)
+    (h3 : Blue.CursorWorldW.run klt tomb s2 evs2 = some s3) :
+    ∃ (t : Nat) (pre post : List F) (c : Blue.CursorWorld.Cur K),
+      s1.base.imm = some t ∧ Blue.CursorWorld.curFiles s1.base.files = pre ++ f :: post ∧
+      (Blue.CursorWorld.capture s1.base).rest = s1.base.tabData.getD t [] ++
+        (pre.flatMap (Blue.CursorWorld.dataOf s1.base.fileData) ++
+          (s1.base.tabData.getD t [] ++ post.flatMap (Blue.CursorWorld.dataOf s1.base.fileData))) ∧
+      s3.base.cursors[s1.base.cursors.length]? = some c ∧ c.snap0 = Blue.CursorWorld.capture s1.base ∧
+      (Blue.Snap.view klt tomb sb eb (Blue.CursorWorldW.captureOnce s1.base)).Nodup ∧
+      c.outs = Ref.run ⟨Blue.Snap.view klt tomb sb eb (Blue.CursorWorldW.captureOnce s1.base), 0⟩
+        (Blue.CursorWorldW.callsOf s1.base.cursors.length evs2) :=
+  Blue.CursorWorldW.cursor_opened_in_window_shows_each_entry_once st tomb files data evs1 evs2 sb eb f h1 hw hf h2 h3
+
+/-- **(3) in the words of the property, for every cursor of the split machine — in particular one
+    opened inside the window**: what it returned
+    during ANY interleaving `evs2` (the `flushClear` that ends the window, later flushes,
+    compactions, verifier passes, …) is what it returns in the QUIET run in which nothing follows
+    its open but its own calls — and that run exists -/
+theorem cursor_unmoved_by_store_w {klt : K → K → Bool} (st : StrictTotal klt) (tomb : Ver K → Bool)
+    (files : List F) (data : List (F × List (Ver K))) (evs1 evs2 : List (Blue.CursorWorldW.Ev F K)) (sb eb : Bound K)
+    {s1 s2 s3 : Blue.CursorWorldW.St F K}
+    (h1 : Blue.CursorWorldW.run klt tomb (Blue.CursorWorldW.init files data) evs1 = some s1)
+    (h2 : Blue.CursorWorldW.step klt tomb s1 (.openCursor sb eb) = some s2)
+    (h3 : Blue.CursorWorldW.run klt tomb s2 evs2 = some s3) :
+    ∃ (q : Blue.CursorWorldW.St F K) (c cq : Blue.CursorWorld.Cur K),
+      Blue.CursorWorldW.run klt tomb s2 ((Blue.CursorWorldW.callsOf s1.base.cursors.length evs2).map
+        (fun o => (Blue.CursorWorldW.Ev.stepCursor s1.base.cursors.length o : Blue.CursorWorldW.Ev F K))) = some q ∧
+      s3.base.cursors[s1.base.cursors.length]? = some c ∧ q.base.cursors[s1.base.cursors.length]? = some cq ∧
+      c.outs = cq.outs :=
+  Blue.CursorWorldW.cursor_unmoved_by_store_w st tomb files data evs1 evs2 sb eb h1 h2 h3
+
+/-- **(4) the D-4 scenario inside the window**: a cursor opened while `imm = some t` holds an iterator
+    `(t, j)` on the immutable memtable; after ANY events `evs2` — among them the `flushClear` by which
+    the store drops its handle on `t` — as long as the cursor is live that iterator is held, `t` has
+    released NO node and no use after free has happened; once the store's handle is gone and no live
+    cursor has a handle on `t`, every node of `t` is released -/
+theorem window_cursor_memory {klt : K → K → Bool} {tomb : Ver K → Bool} (files : List F) (data : List (F × List (Ver K)))
+    (evs1 evs2 : List (Blue.CursorWorldW.Ev F K)) (sb eb : Bound K) (t : Nat)
+    {s1 s2 s3 : Blue.CursorWorldW.St F K}
+    (h1 : Blue.CursorWorldW.run klt tomb (Blue.CursorWorldW.init files data) evs1 = some s1)
+    (hi : s1.base.imm = some t)
+    (h2 : Blue.CursorWorldW.step klt tomb s1 (.openCursor sb eb) = some s2)
+    (h3 : Blue.CursorWorldW.run klt tomb s2 evs2 = some s3) :
+    ∃ (c : Blue.CursorWorld.Cur K) (j : Nat) (tb : Blue.SkipOwn.St),
+      s3.base.cursors[s1.base.cursors.length]? = some c ∧ (t, j) ∈ c.hs ∧ s3.base.tables[t]? = some tb ∧
+      (c.live = true → Blue.SkipOwn.held tb j = true ∧ tb.freed = [] ∧ tb.uaf = false) ∧
+      (tb.listHeld = false →
+        (∀ (i : Nat) (c' : Blue.CursorWorld.Cur K) (j' : Nat), s3.base.cursors[i]? = some c' → c'.live = true → (t, j') ∉ c'.hs) →
+        tb.freed = List.range tb.nodes) :=
+  Blue.CursorWorldW.window_cursor_memory files data evs1 evs2 sb eb t h1 hi h2 h3
+
+/-- … and `flushClear` does drop the store's handle on the immutable memtable -/
+theorem flushClear_drops_handle {klt : K → K → Bool} {tomb : Ver K → Bool} {s s' : Blue.CursorWorldW.St F K}
+    (hs : Blue.CursorWorldW.step klt tomb s .flushClear = some s') :
+    ∃ t tb', s.base.imm = some t ∧ s'.base.imm = none ∧ s'.base.tables[t]? = some tb' ∧ tb'.listHeld = false :=
+  Blue.CursorWorldW.flushClear_drops_handle hs
+
+/-- the run of the non-vacuity examples: two writes (keys 3, 4 into memtable 0), the rollover,
+    `flushInstall 7` (version 1 = files 1, 7; file 7 = the two entries; `imm` still memtable 0), a cursor
+    is opened INSIDE the window (handles on memtables 1 and 0, version 1), a write (key 6), `flushClear`
+    (the store drops memtable 0), a compaction installs version 2 = file 8, a verifier pass, three
+    calls on the cursor -/
+def windowRun : List (Blue.CursorWorldW.Ev Nat Nat) :=
+  [.write 3, .write 4, .rollover, .flushInstall 7, .openCursor .unbounded .unbounded, .write 6, .flushClear,
+   .compactInstall [8] [(8, [(3, 1), (4, 2), (5, 0), (6, 3)])], .verifierPass,
+   .stepCursor 0 .first, .stepCursor 0 .next, .stepCursor 0 .next]
+
+def windowInit : Blue.CursorWorldW.St Nat Nat := Blue.CursorWorldW.init [1] [(1, [(5, 0)])]
+
+set_option synthInstance.maxSize 2048 in
+/-- the state in which the cursor is opened (after `flushInstall 7`): the window is open, the current
+    version lists 7, `imm` is memtable 0; the children the cursor captures hold (3,1), (4,2) TWICE
+    (immutable memtable, then file 1, then file 7); the contents with each entry once and what the
+    cursor shows -/
+example :
+    (Blue.CursorWorldW.run Nat.blt (fun _ => false) windowInit (windowRun.take 4)).map
+      (fun s => (s.win, Blue.CursorWorld.curFiles s.base.files, s.base.imm,
+        (Blue.CursorWorld.capture s.base).mem, (Blue.CursorWorld.capture s.base).rest,
+        (Blue.CursorWorldW.captureOnce s.base).rest,
+        Blue.Snap.view Nat.blt (fun _ => false) .unbounded .unbounded (Blue.CursorWorld.capture s.base),
+        Blue.Snap.view Nat.blt (fun _ => false) .unbounded .unbounded (Blue.CursorWorldW.captureOnce s.base)))
+    = some (some 7, [1, 7], some 0, [], [(3, 1), (4, 2), (5, 0), (3, 1), (4, 2)], [(5, 0), (3, 1), (4, 2)],
+        [(3, 1), (4, 2), (5, 0)], [(3, 1), (4, 2), (5, 0)]) := by decide
+
+set_option synthInstance.maxSize 2048 in
+/-- non-vacuity of (1)–(3) and of `window_cursor_memory`: right after `flushClear` the store no longer
+    holds memtable 0 (count 1 = the cursor's iterator, nothing released); at the end — after the
+    compaction install and the verifier pass — files 1, 7 of the cursor's version 1 are still in `sst/`,
+    memtable 0 has released nothing, and the three calls return each entry ONCE: (3,1) then (4,2),
+    not (3,1) twice; key 6, written after the open, is not shown -/
+example :
+    (Blue.CursorWorldW.run Nat.blt (fun _ => false) windowInit (windowRun.take 7)).map (fun s => (worldObs s.base, s.win))
+    = some ((([1, 7], [], []), [(false, 1, [], false), (true, 2, [], false)]), none)
+    ∧ (Blue.CursorWorldW.run Nat.blt (fun _ => false) windowInit (windowRun.take 7)).map (fun s => worldObsC s.base)
+    = some ([(true, [(1, 0), (0, 0)], 1, [])], [([1], 0, false), ([1, 7], 2, true)])
+    ∧ (Blue.CursorWorldW.run Nat.blt (fun _ => false) windowInit windowRun).map (fun s => (worldObs s.base, s.win))
+    = some ((([1, 7, 8], [], []), [(false, 1, [], false), (true, 2, [], false)]), none)
+    ∧ (Blue.CursorWorldW.run Nat.blt (fun _ => false) windowInit windowRun).map (fun s => worldObsC s.base)
+    = some ([(true, [(1, 0), (0, 0)], 1, [none, some (3, 1), some (4, 2)])],
+         [([1], 0, false), ([1, 7], 1, true), ([8], 1, true)]) := by decide
+
+set_option synthInstance.maxSize 2048 in
+/-- non-vacuity of (4): the nodes of memtable 0 are released only by the DROP of the cursor (3 nodes),
+    which also moves files 7, 1 to `trash/`; a step through the dropped cursor is not an event; a
+    second `flushInstall` inside the window, a `flushClear` outside one and a rollover inside one are
+    not events -/
+example :
+    (Blue.CursorWorldW.run Nat.blt (fun _ => false) windowInit (windowRun ++ [.dropCursor 0])).map (fun s => (worldObs s.base, s.win))
+    = some ((([8], [7, 1], []), [(false, 0, [0, 1, 2], false), (true, 1, [], false)]), none)
+    ∧ (Blue.CursorWorldW.run Nat.blt (fun _ => false) windowInit (windowRun ++ [.dropCursor 0])).map (fun s => worldObsC s.base)
+    = some ([(false, [(1, 0), (0, 0)], 1, [none, some (3, 1), some (4, 2)])],
+         [([1], 0, false), ([1, 7], 0, false), ([8], 1, true)])
+    ∧ (Blue.CursorWorldW.run Nat.blt (fun _ => false) windowInit (windowRun ++ [.dropCursor 0, .stepCursor 0 .next])).isNone = true
+    ∧ (Blue.CursorWorldW.run Nat.blt (fun _ => false) windowInit (windowRun.take 4 ++ [.flushInstall 9])).isNone = true
+    ∧ (Blue.CursorWorldW.run Nat.blt (fun _ => false) windowInit (windowRun.take 4 ++ [.rollover])).isNone = true
+    ∧ (Blue.CursorWorldW.run Nat.blt (fun _ => false) windowInit (windowRun.take 3 ++ [.flushClear])).isNone = true := by decide
+
+/-- the hypotheses of (3) / (4) / `window_collapses_to_flush` on that run: the cursor is opened after the
+    first four events, inside the window of file 7, with `imm = some 0`; the other seven follow -/
+example :
+    ∃ s1 s2 s3,
+      Blue.CursorWorldW.run Nat.blt (fun _ => false) windowInit (windowRun.take 4) = some s1 ∧
+      s1.win = some 7 ∧ 7 ∈ Blue.CursorWorld.curFiles s1.base.files ∧ s1.base.imm = some 0 ∧
+      Blue.CursorWorldW.step Nat.blt (fun _ => false) s1 (.openCursor .unbounded .unbounded) = some s2 ∧
+      Blue.CursorWorldW.run Nat.blt (fun _ => false) s2 (windowRun.drop 5) = some s3 ∧
+      Blue.CursorWorldW.callsOf 0 (windowRun.drop 5) = [Op.first, .next, .next] := by
+  refine ⟨_, _, _, rfl, rfl, ?_, rfl, rfl, rfl, ?_⟩
+  · decide
+  · rfl
+
+example :
+    ∃ s s1 s2,
+      Blue.CursorWorldW.run Nat.blt (fun _ => false) windowInit (windowRun.take 3) = some s ∧
+      Blue.CursorWorldW.step Nat.blt (fun _ => false) s (.flushInstall 7) = some s1 ∧
+      Blue.CursorWorldW.step Nat.blt (fun _ => false) s1 .flushClear = some s2 :=
+  ⟨_, _, _, rfl, rfl, rfl⟩
+
+end CursorWorldW
+-- END CursorWorldW
+
 end Blue.Props.C07
 
 #print axioms Blue.Props.C07.held_files_present
@@ -606,3 +880,14 @@ end Blue.Props.C07
 #print axioms Blue.Props.C07.cursor_shows_open_time_contents
 #print axioms Blue.Props.C07.cursor_unmoved_by_store
 #print axioms Blue.Props.C07.drop_releases
+#print axioms Blue.Props.C07.world_inv_w
+#print axioms Blue.Props.C07.cursor_step_safe_w
+#print axioms Blue.Props.C07.cursor_step_enabled_w
+#print axioms Blue.Props.C07.drop_releases_w
+#print axioms Blue.Props.C07.window_collapses_to_flush
+#print axioms Blue.Props.C07.flushInstall_opens_window
+#print axioms Blue.Props.C07.cursor_shows_open_time_contents_w
+#print axioms Blue.Props.C07.cursor_opened_in_window_shows_each_entry_once
+#print axioms Blue.Props.C07.cursor_unmoved_by_store_w
+#print axioms Blue.Props.C07.window_cursor_memory
+#print axioms Blue.Props.C07.flushClear_drops_handle
